@@ -67,7 +67,7 @@ type c15Secret struct {
 }
 
 type c15Item struct {
-	channel string // grpc-out grpc-in grpc-err http backup log stdout
+	channel string // grpc-out grpc-in grpc-err http backup log stdout stderr load-err
 	what    string
 	phase   string
 	data    []byte
@@ -127,6 +127,10 @@ func c15Encodings(raw []byte) []c15Pat {
 		cm = append(cm, fmt.Sprint(b))
 	}
 	ps = append(ps, c15Pat{"go-bytes", []byte(strings.Join(sp, " "))}, c15Pat{"json-array", []byte(strings.Join(cm, ","))})
+	// either half of the hex form (an error that echoes a truncated or split value)
+	if h := hex.EncodeToString(raw); len(h) >= 64 {
+		ps = append(ps, c15Pat{"hex-lower-first-half", []byte(h[:len(h)/2])}, c15Pat{"hex-lower-second-half", []byte(h[len(h)/2:])})
+	}
 	// drop duplicates (base64 std == url when no +/ occurs) and anything too short to be meaningful
 	seen := map[string]bool{}
 	var out []c15Pat
@@ -900,6 +904,7 @@ func TestVF_C15(t *testing.T) {
 			sc.mu.Unlock()
 		})
 		c15Scenario(t, run, sc, schemeName, ci, root)
+		c15RefusedLoads(run, sc, schemeName, ci, root)
 		vfhook.SetPoint(nil)
 		os.Stdout = realStdout
 		dlog.ConfigureDefaultLogger(nil, dlog.InfoLevel, true)
@@ -917,7 +922,7 @@ func TestVF_C15(t *testing.T) {
 		chans := sc.evaluate(run, map[string]any{"case_index": ci, "scheme": schemeName})
 		run.Sample(map[string]any{"case_index": ci, "scheme": schemeName, "items": len(sc.items), "snapshots": len(sc.snaps), "secrets": len(sc.secrets), "canary_channels": fmt.Sprint(chans)})
 		if run.inconcl == 0 {
-			for _, ch := range []string{"grpc-out", "grpc-in", "grpc-err", "http", "backup", "log", "stdout", "file-mode", "file-content"} {
+			for _, ch := range []string{"grpc-out", "grpc-in", "grpc-err", "http", "backup", "log", "stdout", "stderr", "load-err", "file-mode", "file-content"} {
 				if !chans[ch] {
 					t.Errorf("C15 harness: canary not found in channel %q — the scanner is blind there (case %d)", ch, ci)
 				}
